@@ -28,6 +28,7 @@ class Fn:
         self.attrs = []
         self.substs = []
         self.contract = []
+        self.entry = []     # proof lines placed at the very start of the body (can never lose their place)
         self.loops = {}
         self.before = []
         self.after = []
@@ -76,6 +77,8 @@ def parse_template(tpl):
                     m = re.match(r'//@(before|after) (\d+) /(.*)/\s*$', d)
                     cur = []
                     (f.before if m.group(1) == 'before' else f.after).append((int(m.group(2)), m.group(3), cur))
+                elif d.startswith('//@entry'):
+                    cur = f.entry
                 elif d.startswith('//@closure'):
                     cur = []
                     f.closures.append(cur)
@@ -182,18 +185,45 @@ def build_fn(f, sources, fnmeta):
     unused = set(range(1, len(heads) + 1)) - set(f.loops)
     blines = inj_body.split('\n')
     inserts = []  # (line index to insert before, text lines)
+    cand = []     # (position, text lines, description)
+    lost_txt = []
     for (k, rx, txt) in f.before:
         hits = [i for i, l in enumerate(blines) if re.search(rx, l)]
         if len(hits) < k:
             lost.append('before /%s/ #%d' % (rx, k))
+            lost_txt.append(txt)
             continue
-        inserts.append((hits[k - 1], txt))
+        cand.append((hits[k - 1], txt, 'before /%s/ #%d' % (rx, k)))
     for (k, rx, txt) in f.after:
         hits = [i for i, l in enumerate(blines) if re.search(rx, l)]
         if len(hits) < k:
             lost.append('after /%s/ #%d' % (rx, k))
+            lost_txt.append(txt)
             continue
-        inserts.append((stmt_end_line(blines, hits[k - 1]) + 1, txt))
+        cand.append((stmt_end_line(blines, hits[k - 1]) + 1, txt, 'after /%s/ #%d' % (rx, k)))
+    # a lost hint may have declared ghost variables that later hints mention: those go too (the unit must still compile
+    # so that the other functions keep their verdicts); the function is then checked without them, a failure is undecided
+    gone = set()
+    for t in lost_txt:
+        gone |= set(re.findall(r'let ghost (?:mut )?(\w+)', '\n'.join(t)))
+    changed = bool(gone)
+    while changed:
+        changed = False
+        for c in list(cand):
+            body_txt = '\n'.join(c[1])
+            if any(re.search(r'\b%s\b' % re.escape(g), body_txt) for g in gone):
+                cand.remove(c)
+                lost.append(c[2] + ' (uses a ghost variable of a lost hint)')
+                new_g = set(re.findall(r'let ghost (?:mut )?(\w+)', body_txt)) - gone
+                if new_g:
+                    gone |= new_g
+                changed = True
+    if gone and any(re.search(r'\b%s\b' % re.escape(g), '\n'.join(t)) for g in gone for t in f.loops.values()):
+        lost.append('loop invariant uses a ghost variable of a lost hint')
+    inserts = [(p, t) for p, t, _ in cand]
+    if f.entry:
+        # first line of the body is its opening brace
+        inserts.append((1, f.entry))
     for pos, txt in sorted(inserts, key=lambda x: -x[0]):
         blines[pos:pos] = txt
     inj_body = '\n'.join(blines)
